@@ -298,3 +298,33 @@ func init() {
 		}
 	}
 }
+
+// scriptTW: a TWCC encoding through its own decoder, the datagram decoder,
+// and its own decoder again with junk after the declared length (C13).
+func scriptTW(s *exec.State, b []byte) {
+	s.Reset()
+	s.SetBuf(1, b)
+	s.Unmarshal("TWCC", 1, 2)
+	if has(s, 2) {
+		s.Marshal(2)
+		s.String(2)
+	}
+	s.Datagram(1, 4)
+	s.SetBuf(6, append(append([]byte(nil), b...), 0xFF, 0x01, 0x80, 0x7F, 0xFF))
+	s.UnmarshalFull("TWCC", 6, 7, 0, 2, 1)
+	s.SetBuf(8, append(append([]byte(nil), b...), 0x00, 0x00))
+	s.UnmarshalFull("TWCC", 8, 9, 0, 2, 1)
+}
+
+func init() {
+	extraScripts["tw"] = func(s *exec.State, rec abs.V) { scriptTW(s, abs.GoBytes(rec["bytes"])) }
+	drivers["twccfuzz"] = func(s *exec.State, g *gen.G, n int) {
+		for i := 0; i < n; i++ {
+			b := encodeWith(g.TWCC())
+			for k := g.Pick(0, 0, 1, 1, 2); k > 0; k-- {
+				b = mutate(g, b)
+			}
+			scriptTW(s, b)
+		}
+	}
+}
